@@ -61,6 +61,8 @@ def run(ctx):
     ctx.do(C15.rule_property_forward, rule_id="C02.timestamp-pipeline")
     from .hidden_state import rule_no_hidden_state
     ctx.do(rule_no_hidden_state, "C02.history-independence")
+    from .pitfalls import rule_loops_not_cut_short
+    ctx.do(rule_loops_not_cut_short, "C02.loops-complete")
 
 
 # ---------------------------------------------------------------------------
